@@ -217,7 +217,8 @@ fn check_windows(reg: Reg, front: Front, join: bool, snap: &lorawan_device::veri
     }
     let check_rx2 = |f: u32, sf: u8, bw: u32, which: &str, col: &mut Collector| {
         if !f2_ok.contains(&f) {
-            col.violation(&format!("C10|{}-frequency|{}|{}", which, reg.name(), if snap.rx2_frequency.is_some() { "negotiated" } else { "default" }), "RX2 / Class C frequency differs from the negotiated or regional default", ctx(which));
+            let tag = if what.contains("moved-rx2") { "|rx2-moved-in-the-session-left-behind" } else { "" };
+            col.violation(&format!("C10|{}-frequency|{}|{}{}", which, reg.name(), if snap.rx2_frequency.is_some() { "negotiated" } else { "default" }, tag), "RX2 / Class C frequency differs from the negotiated or regional default", ctx(which));
         }
         let rates: Vec<Option<(u8, u32)>> = d2_ok.iter().map(|d| reg.lora_dr(*d)).collect();
         if rates.iter().all(|r| r.is_some()) {
@@ -588,6 +589,42 @@ fn join_case(reg: Reg, front: Front, rng: &mut Prng, col: &mut Collector) {
                     let del = rng.range(2, 16) as u8;
                     let f = net.mac_downlink(1, &rx_timing_setup_req(del), rng.bool());
                     let _ = dev.transact(Action::Send { data: &[9], port: 1, confirmed: false }, &Script::rx1(f));
+                    // now and then the old session also moved RX2 and the RX1 offset (RXParamSetupReq). A join leaves
+                    // that session behind: nothing was negotiated with the network the device joins now, so the
+                    // join request's own windows and the RX2 frequency of the new session are the regional defaults
+                    // (the accept carries an RX1 offset and an RX2 rate, but no frequency)
+                    let mut moved = false;
+                    if rng.bool() {
+                        let (lo, hi) = reg.inner_band();
+                        let f2 = lo + rng.below(((hi - lo) / 100) as u64) as u32 * 100;
+                        let o2 = rng.below(reg.max_rx1_offset() as u64 + 1) as u8;
+                        let c = rx_param_setup_req((o2 << 4) | reg.rx2_default().1, f2 / 100);
+                        let f = net.mac_downlink(2, &c, rng.bool());
+                        let _ = dev.transact(Action::Send { data: &[9], port: 1, confirmed: false }, &Script::rx1(f));
+                        let s = dev.snapshot();
+                        moved = s.rx2_frequency == Some(f2) && f2 != reg.rx2_default().0;
+                        if moved {
+                            col.event("old_session_moved_rx2");
+                        }
+                    }
+                    if moved && rng.bool() {
+                        // an unanswered re-join attempt first: its windows are judged against the defaults
+                        dev.set_rng_next(rng.next_u32());
+                        let mut snap = dev.snapshot();
+                        snap.rx2_frequency = None;
+                        snap.rx2_data_rate = None;
+                        snap.rx1_dr_offset = 0;
+                        let ev1 = dev.ev_len();
+                        let r = dev.transact(Action::Join, &Script::silent());
+                        if let Resp::Panic(m, l) = &r {
+                            col.violation(&format!("C10|panic|rejoin|{}|{}", reg.name(), short_loc(l)), "device panicked during a re-join", json!({"msg": m, "loc": l}));
+                            return;
+                        }
+                        let evs = dev.evs_since(ev1);
+                        let after = dev.snapshot();
+                        col.event("rejoin_windows_after_moved_rx2");
+                        check_windows(reg, front, true, &snap, &after, false, &model, &evs, txd, lead, col, "re-join-after-moved-rx2", json!({"old_session": "RXParamSetupReq accepted"}));
+                    }
                     let ja2 = JoinAcceptDesc { join_nonce: rng.below(1 << 24) as u32, net_id: 1, dev_addr: rng.next_u32(), dl_settings: reg.rx2_default().1, rx_delay: *rng.pick(&[0u8, 0, 1, 3, 15]), cf_list: None };
                     let w = encode_join_accept(&creds.app_key, &ja2);
                     let r2 = dev.transact(Action::Join, &Script::rx1(w));
@@ -600,13 +637,16 @@ fn join_case(reg: Reg, front: Front, rng: &mut Prng, col: &mut Collector) {
                         let after2 = dev.snapshot();
                         join_delay_check(reg, front, &ja2, &after2, "re-join", col);
                         dev.set_rng_next(rng.next_u32());
-                        let snap = dev.snapshot();
+                        let mut snap = dev.snapshot();
+                        // no RXParamSetupReq in the new session: RX2 is on the regional default frequency
+                        snap.rx2_frequency = None;
                         let ev1 = dev.ev_len();
                         let r = dev.transact(Action::Send { data: &[7], port: 1, confirmed: false }, &Script::silent());
                         if !matches!(r, Resp::Panic(..)) {
                             let evs = dev.evs_since(ev1);
-                            let after = dev.snapshot();
-                            check_windows(reg, front, false, &snap, &after, false, &model, &evs, txd, lead, col, "first-after-rejoin", json!({"rx_delay": ja2.rx_delay, "old_session_del": del}));
+                            let mut after = dev.snapshot();
+                            after.rx2_frequency = None;
+                            check_windows(reg, front, false, &snap, &after, false, &model, &evs, txd, lead, col, if moved { "first-after-rejoin-moved-rx2" } else { "first-after-rejoin" }, json!({"rx_delay": ja2.rx_delay, "old_session_del": del, "old_session_moved_rx2": moved}));
                         }
                     }
                 }
